@@ -11,6 +11,7 @@ pub mod p_cli;
 pub mod p_crash;
 pub mod p_diff;
 pub mod p_files;
+pub mod p_git;
 pub mod p_history;
 pub mod p_ignore;
 pub mod p_index;
@@ -54,6 +55,7 @@ pub fn dispatch(ctx: &Ctx) -> Option<i32> {
         "C18" => p_index::run_c18(ctx),
         "C19" => p_revset::run_c19(ctx),
         "C20" => p_index::run_c20(ctx),
+        "C34" => p_git::run_c34(ctx),
         "C37" => p_history::run_c37(ctx),
         "C38" => p_history::run_c38(ctx),
         "C39" => p_revset::run_c39(ctx),
@@ -74,6 +76,7 @@ pub fn dispatch(ctx: &Ctx) -> Option<i32> {
         "C41" => p_cli::run_c41(ctx),
         "C42" => p_cli::run_c42(ctx),
         "C43" => p_ignore::run_c43(ctx),
+        "C45" => p_git::run_c45(ctx),
         "C46" => p_history::run_c46(ctx),
         _ => return None,
     })
